@@ -13,31 +13,32 @@ from ..drivers import conn as cd
 from . import _conn as K
 
 CLAUSES = ('rollback-owner', 'rollback-value', 'stale', 'dirty-idle', 'serial', 'leftover')
+DEVS = ('AliasCreating', 'SpBlobByName')        # the deviations whose clauses are this property's
 FOCUS = ('Rollback',)
 NEED = ['Modify', 'Link', 'Unlink', 'AddExplicit', 'Load', 'Savepoint', 'Rollback', 'Begin', 'CommitSp', 'CommitSpConflict',
         'Store', 'Stored', 'Vote', 'Finish', 'Abort', 'OtherCommit']
 
 
 def configs(q):
-    two = cd.consts(Obj=('a', 'b'), Edges='EdgesFlat', MaxSp=2, MaxCommit=1, MaxAct=4 if q else 5, MaxTail=1,
+    two = cd.consts(Obj=('a', 'b'), Edges='EdgesFlat', MaxSp=2, MaxCommit=1, MaxAct=4, MaxTail=1,
                     Ops=('add', 'sp') if q else ('add', 'sp', 'load'))
-    rep = cd.consts(Obj=('a',), Edges='EdgesFlat', MaxSp=2 if q else 3, MaxCommit=1, MaxAct=6 if q else 7, MaxTail=1,
+    rep = cd.consts(Obj=('a',), Edges='EdgesFlat', MaxSp=2 if q else 3, MaxCommit=1, MaxAct=6, MaxTail=1,
                     Ops=('add', 'sp', 'load'))
     chain = cd.consts(Obj=('a', 'b'), Edges='EdgesChain', MaxSp=2, MaxCommit=1, MaxAct=4 if q else 5, MaxTail=1, Ops=('sp',))
     other = cd.consts(Obj=('a',) if q else ('a', 'b'), Edges='EdgesFlat', Pre=('a',), MaxSp=2, MaxCommit=1, MaxOther=1,
                       MaxAct=4, MaxTail=1, Ops=('sp', 'other', 'load'))
-    blob = cd.consts(Obj=('k',) if q else ('a', 'k'), Blobs=('k',), Edges='EdgesBlob', MaxSp=2, MaxCommit=1, MaxAct=6 if q else 5,
+    blob = cd.consts(Obj=('k',) if q else ('a', 'k'), Blobs=('k',), Edges='EdgesBlob', MaxSp=2, MaxCommit=1, MaxAct=6 if q else 4,
                      MaxTail=1, Ops=('add', 'sp', 'load') if q else ('add', 'sp', 'load', 'free'))
     return [('two-savepoints', two), ('repeated-rollback', rep), ('reachability', chain), ('conflict-at-commit', other),
             ('blobs', blob)]
 
 
-BUDGET = {'two-savepoints': 90000, 'repeated-rollback': 90000, 'reachability': 70000, 'conflict-at-commit': 70000, 'blobs': 60000}
+BUDGET = {'two-savepoints': 32000, 'repeated-rollback': 32000, 'reachability': 30000, 'conflict-at-commit': 30000, 'blobs': 22000}
 
 
 def run(ctx):
     q = ctx.quick
-    cov = K.Cover(ctx.pid, CLAUSES, FOCUS)
+    cov = K.Cover(ctx.pid, CLAUSES, FOCUS, DEVS)
     items = configs(q)
     kinds = ('mapping', 'file') if q else ('mapping', 'file', 'demo')
     dev = K.deviations(ctx, cov, kinds, blobs=True)
@@ -65,4 +66,4 @@ RULE = ('tours through the state graphs TLC dumped for ZConn (model of the code 
 
 
 def replay(ctx, data):
-    return K.replay(ctx, data, CLAUSES, FOCUS)
+    return K.replay(ctx, data, CLAUSES, FOCUS, DEVS)
